@@ -6,6 +6,9 @@ design:     Runnable.tla at shared-variable grain (loop thread + controller thre
               MC_RunnableWindow.cfg / ..Revoked.cfg   EXPECTED counterexamples (the two findings, design level)
               MC_RunnableFixedUncond.cfg              EXPECTED counterexample for the half repair
               MC_RunnableFixed.cfg / ..Fixed1.cfg     repaired stop() ordering: everything holds
+              MC_RunnableBackoff.cfg                  the pause after an iteration against the law, loop sleep below min /
+                                                      between min and max / above max
+              MC_RunnablePauseMax.cfg                 EXPECTED counterexample: pause = max(sleep, in_backoff)
               MC_RunnableResetInRun.cfg               EXPECTED counterexample: stop request cleared by the loop thread
                                                       (head of run()) instead of start(): a stop() landing between
                                                       start() returning and the loop thread's first statement is lost
@@ -16,7 +19,9 @@ spec->code: Gen_Runnable enumerates gated schedules (controller calls placed whi
             not yet entered); a Runnable subclass whose do / interruptable_sleep / wake / wait rendezvous with the
             driver, and a threading.Thread subclass (substituted for the name `threading` inside cloudsync.runnable,
             from outside the repository) whose start() and run() do, force each schedule on the real class.
-            Backoff: every do-outcome sequence up to a length x a grid of (min, max, mult), run(until=...) directly.
+            Backoff: every do-outcome sequence up to a length x a grid of (min, max, mult) x the loop's ordinary sleep
+            (below min, between min and max, above max), run(until=..., sleep=...) directly; Gen_Runnable family GP:
+            the same dimension through start(sleep=...) on a gated loop thread.
             Gen_Notifier enumerates notify / deliver(fail) / stop sequences, executed on the real NotificationManager.
 code->spec: everything that happened is recorded under one lock; Trace_Runnable (TLC) evaluates the property clauses
             on the recorded order, Trace_RunnableConc (TLC) searches a placement of the unlogged shared-variable
@@ -310,7 +315,7 @@ def invoke(r, rec, a, kd, start_kw=None):
     res, et = "ok", ""
     try:
         if kd == "start":
-            r.start(**(start_kw or {"sleep": NORM}))
+            r.start(**(start_kw or getattr(r, "_start_kw", None) or {"sleep": NORM}))
         elif kd == "wake":
             r.wake()
         elif kd == "wait":
@@ -348,9 +353,18 @@ def await_calls(th, rec, cur, limit=120.0):
     return True
 
 
-def cfg_of(params, direct):
+def cfg_of(params, direct, sleep=NORM):
     mn, mx, (p, q) = params
-    return {"mn": scaled(mn), "mx": scaled(mx), "p": p, "q": q, "norm": scaled(NORM), "direct": direct}
+    return {"mn": scaled(mn), "mx": scaled(mx), "p": p, "q": q, "norm": scaled(sleep), "direct": direct}
+
+
+def sleeps_for(params):
+    """The loop's ordinary sleep as a dimension: below min (the usual 1/1024), between min and max, above max."""
+    mn, mx, _ = params
+    lo, hi = min(mn, mx), max(mn, mx)
+    between = (lo + hi) / 2 if lo < hi else (hi if hi > 0 else 0.5)
+    above = 2 * hi if hi > 0 else 2.0
+    return [NORM, between, above]
 
 
 DEFAULT_PARAMS = (1.0 / 1024, 4.0 / 1024, (2, 1))
@@ -359,9 +373,9 @@ DEFAULT_PARAMS = (1.0 / 1024, 4.0 / 1024, (2, 1))
 # ---------------------------------------------------------------------------------------------------
 # family 1: backoff law, run(until=...) called directly
 # ---------------------------------------------------------------------------------------------------
-def run_backoff(seq, params):
+def run_backoff(seq, params, sleep=NORM):
     HR = K()["HR"]
-    rec = Recorder(cfg_of(params, 1))
+    rec = Recorder(cfg_of(params, 1, sleep))
     r = HR(rec, params=params, script=seq)
     n = len(seq)
 
@@ -372,7 +386,7 @@ def run_backoff(seq, params):
         return False
     prev = getattr(_tl, "actor", None)
     try:
-        r.run(until=until, sleep=NORM)
+        r.run(until=until, sleep=sleep)
     except BaseException:            # an exception that escapes run(): already recorded by the exit event
         pass
     _tl.actor = prev
@@ -380,8 +394,8 @@ def run_backoff(seq, params):
 
 
 def _backoff_chunk(args):
-    seqs, grid = args
-    return [run_backoff(list(s), p) for s in seqs for p in grid]
+    seqs, grid = args          # grid: (params, sleep) pairs
+    return [run_backoff(list(s), p, sl) for s in seqs for p, sl in grid]
 
 
 # ---------------------------------------------------------------------------------------------------
@@ -466,7 +480,8 @@ def run_gated(sched, prestarted, preboot=False):
     HR = K()["HR"]
     toks = sched["toks"]
     ctls = sorted(int(k) for k in sched["fin"] if k != "0")
-    rec = Recorder(cfg_of(DEFAULT_PARAMS, 0))
+    sleep = sched.get("sleep", scaled(NORM)) / S          # the loop's ordinary sleep is part of the schedule
+    rec = Recorder(cfg_of(DEFAULT_PARAMS, 0, sleep))
     gates = Gates([0] + ctls + [3])
     gates.gate_ths = len(ctls) > 1
     if prestarted:
@@ -474,6 +489,7 @@ def run_gated(sched, prestarted, preboot=False):
         gates.skip["boot"] = 0 if preboot else 1
     script = [t["x"] for t in toks if t["k"] == "do"]
     r = HR(rec, params=DEFAULT_PARAMS, script=script, gates=gates)
+    r._start_kw = {"sleep": sleep}
     workers = {c: Worker(c, r, rec, gates) for c in ctls}
     for w in workers.values():
         w.start()
@@ -765,10 +781,14 @@ PLAIN = ["TypeOK", "BackoffLaw", "ClearOnSuccess", "BackoffState", "NoDoAfterSto
          "DoneExactlyOnceIfFinal", "NoRestartAfterFinalStop", "SurvivesAnythingSeen"]
 
 
-def runnable_cfg(ctx, name, *, ctls, kinds, outs, calls, maxdo, until, pre, fixed, tail):
+def runnable_cfg(ctx, name, *, ctls, kinds, outs, calls, maxdo, until, pre, fixed, tail, sleeps=None):
+    """Backoff parameters = DEFAULT_PARAMS in trace units; sleeps: the loop's ordinary sleep(s), default the usual one."""
+    mn, mx, (p, q) = DEFAULT_PARAMS
     return tc.gen_cfg(ctx, name, "CONSTANTS\n Ctls = %s\n Owner = 1\n OpKinds = %s\n Outcomes = %s\n MaxCalls = %d\n"
-                      " MaxDo = %d\n UseUntil = %s\n PreStarted = %s\n FixedStopOrder = %d\n ResetInRun = FALSE\n%s\nCHECK_DEADLOCK FALSE\n"
-                      % (ctls, kinds, outs, calls, maxdo, "TRUE" if until else "FALSE", "TRUE" if pre else "FALSE", fixed, tail))
+                      " MaxDo = %d\n UseUntil = %s\n PreStarted = %s\n FixedStopOrder = %d\n ResetInRun = FALSE\n"
+                      " BMin = %d\n BMax = %d\n BMulP = %d\n BMulQ = %d\n Sleeps = {%s}\n PauseMax = FALSE\n%s\nCHECK_DEADLOCK FALSE\n"
+                      % (ctls, kinds, outs, calls, maxdo, "TRUE" if until else "FALSE", "TRUE" if pre else "FALSE", fixed,
+                         scaled(mn), scaled(mx), p, q, ", ".join(str(scaled(x)) for x in (sleeps or [NORM])), tail))
 
 
 def mc_tail(invs):
@@ -812,6 +832,8 @@ def design_runs(ctx):
     jobs += [("MC_RunnableWindow", expect("MC_RunnableWindow.cfg", "NoStopOrderWindow", "expected counterexample: loop exits between wake() and the final-stop flag")),
              ("MC_RunnableRevoked", expect("MC_RunnableRevoked.cfg", "NoFinalRevoked", "expected counterexample: a non-final stop revokes a final stop")),
              ("MC_RunnableFixedUncond", expect("MC_RunnableFixedUncond.cfg", "NoFinalRevoked", "expected counterexample: unconditional assignment moved to the front still revokes")),
+             ("MC_RunnableBackoff", clean("Runnable", "MC_RunnableBackoff.cfg", "design: pause after an iteration vs the law, loop sleep below min / between / above max", 2)),
+             ("MC_RunnablePauseMax", expect("MC_RunnablePauseMax.cfg", "BackoffLaw", "expected counterexample: pause = max(sleep, in_backoff) waits a whole loop sleep instead of the first backoff steps")),
              ("MC_RunnableResetInRun", expect("MC_RunnableResetInRun.cfg", "StopCanReturn", "expected counterexample: stop request cleared by the loop thread at the head of run(): a stop() landing before the loop thread's first statement is lost")),
              ("MC_Notifier", clean("Notifier", "MC_Notifier.cfg", "design: notification queue, thread mode", 2)),
              ("MC_NotifierDirect", clean("Notifier", "MC_NotifierDirect.cfg", "design: notification queue, direct do()", 2))]
@@ -933,7 +955,8 @@ def exec_case(case):
     """Re-execute one case (exemplar / replay).  Returns (kind, trace)."""
     fam = case["family"]
     if fam == "backoff":
-        return "runnable", run_backoff(list(case["seq"]), (case["params"][0], case["params"][1], tuple(case["params"][2])))
+        return "runnable", run_backoff(list(case["seq"]), (case["params"][0], case["params"][1], tuple(case["params"][2])),
+                                       case.get("sleep", NORM))
     if fam == "gated":
         tr, _ = run_gated(case["schedule"], case.get("prestarted", False), case.get("preboot", False))
         return "runnable", tr
@@ -952,7 +975,8 @@ def _run(ctx, pool):
     quick = ctx.tier == "quick"
     ctx.extra["rule"] = (
         "backoff: every sequence of do() outcomes {did, nothing, backoff request, Exception, BaseException} up to length "
-        "%d x %d parameter triples, run(until=...) on the real class, non-trivial = contains a failure; "
+        "%d x %d parameter triples with the usual loop sleep (1/1024 s), and up to one less with a loop sleep between min "
+        "and max and above max of the triple, run(until=..., sleep=...) on the real class, non-trivial = contains a failure; "
         "gated: schedules enumerated by TLC from Gen_Runnable (release/call tokens at the gates do, sleep, wake entry, wake "
         "exit, wait entry, and in the start-up of the loop thread: entry of Thread.start() inside start(), new thread "
         "bootstrapped but run() not entered), non-trivial = a controller token is placed while the loop thread exists; "
@@ -1020,11 +1044,20 @@ def _run(ctx, pool):
                 NC.append(f["exemplar"])
 
     # ---- backoff law -----------------------------------------------------------------------------
+    # every outcome sequence up to maxlen with the usual loop sleep (below every min > 0); every sequence up to
+    # maxlen - 1 with a loop sleep between min and max, and above max, of each parameter triple
     maxlen = 4 if quick else 6
     seqs = [s for n in range(1, maxlen + 1) for s in itertools.product(OUTS5, repeat=n)]
-    out = pmap(pool, _backoff_chunk, [(c, GRID) for c in chunks(seqs, len(seqs) // (4 * nproc) + 1)])
+    short = [s for s in seqs if len(s) < maxlen]
+    g0 = [(p, NORM) for p in GRID]
+    g1 = [(p, sl) for p in GRID for sl in sleeps_for(p)[1:]]
+    bjobs = [(c, g0) for c in chunks(seqs, len(seqs) // (4 * nproc) + 1)] + \
+            [(c, g1) for c in chunks(short, len(short) // (4 * nproc) + 1)]
+    out = pmap(pool, _backoff_chunk, bjobs)
     traces = [t for ch in out for t in ch]
-    cases = [{"family": "backoff", "seq": list(s), "params": [p[0], p[1], list(p[2])]} for s in seqs for p in GRID]
+    cases = [{"family": "backoff", "seq": list(s), "params": [p[0], p[1], list(p[2])], "sleep": sl}
+             for c, g in bjobs for s in c for p, sl in g]
+    ctx.extra["backoff_loop_sleeps"] = {"usual": len(seqs) * len(g0), "between_min_max_and_above_max": len(short) * len(g1)}
     ctx.count(evaluations=len(traces), nontrivial=sum(1 for c in cases if set(c["seq"]) & {"backoff", "exc", "base"}))
     ctx.extra["backoff_traces"] = len(traces)
     ctx.sample({"backoff": cases[len(cases) // 3], "trace": traces[len(cases) // 3]})
@@ -1053,6 +1086,11 @@ def _run(ctx, pool):
         ("GS", dict(ctls="{1, 2}", kinds=K7, outs='{"did"}', calls=2, maxdo=1, pre=False, maxtok=7 if quick else 8,
                     fixed=variant), False, False),
     ]
+    # the loop's ordinary sleep as a dimension, through start(sleep=...): every sequence of 3 (4) do() outcomes on a gated
+    # loop thread, sleep below min / between min and max / above max of DEFAULT_PARAMS
+    specs.append(("GP", dict(ctls="{1}", kinds="{}", outs='{"did", "nothing", "backoff", "exc", "base"}', calls=0,
+                             maxdo=3 if quick else 4, pre=True, maxtok=11 if quick else 15, fixed=variant,
+                             sleeps=[1.0 / 4096, 2.0 / 1024, 16.0 / 1024]), True, False))
     if not quick:
         # both controllers act while the loop thread of a started service is still held before run()
         specs.append(("GX", dict(ctls="{1, 2}", kinds='{"stopTW", "stopFW", "stopFN", "wake", "wait"}', outs='{"did"}', calls=2,
@@ -1178,7 +1216,12 @@ def _run(ctx, pool):
 
 def run(ctx):
     import multiprocessing
+    import gc
     K()                                        # import the working tree once, before forking
+    # not ctx.pool(): the gated schedules wait on real joins (start()'s join(timeout=1), block-mode sleeps), so this
+    # family wants more processes than cores; like ctx.pool() the parent's heap is frozen before the fork
+    gc.collect()
+    gc.freeze()
     pool = multiprocessing.get_context("fork").Pool(min(32, 2 * ctx.workers))
     try:
         _run(ctx, pool)
